@@ -20,16 +20,31 @@ import json
 
 import numpy as np
 
-ENGINES_ROOT = ["sea", "seax", "ga", "adapt", "mwea", "de", "ded", "shade", "lhs", "sobol"]
-ENGINES_MID = ["sea", "seax", "ga", "adapt", "mwea", "de", "ded", "shade", "cma", "cmaw", "cmas"]
+ENGINES_ROOT = ["sea", "seax", "ga", "adapt", "mwea", "de", "ded", "shade", "lhs", "sobol", "xsea", "xde"]
+ENGINES_MID = ["sea", "seax", "ga", "adapt", "mwea", "de", "ded", "shade", "cma", "cmaw", "cmas", "xsea", "xde"]
 ENGINES_LEAF = ENGINES_MID + ["local"]
-POP_ENGINES = {"sea", "seax", "ga", "adapt", "mwea", "de", "ded", "shade"}
-ELITIST = {"sea", "seax", "ga", "adapt", "de", "ded", "shade"}
+POP_ENGINES = {"sea", "seax", "ga", "adapt", "mwea", "de", "ded", "shade", "xsea", "xde"}
+ELITIST = {"sea", "seax", "ga", "adapt", "de", "ded", "shade", "xsea", "xde"}
+# custom deme classes registered through TreeConfig(config_class_to_deme_class=...):
+#   xsea: config subclasses the built-in EALevelConfig, deme subclasses EADeme
+#   xde : config derives from BaseLevelConfig only (the documented pattern), deme subclasses DEDeme
+CLASS_OF = {"sea": "EADeme", "seax": "EADeme", "ga": "EADeme", "adapt": "EADeme", "mwea": "EADeme", "de": "DEDeme", "ded": "DEDeme", "shade": "SHADEDeme", "cma": "CMADeme", "cmaw": "CMADeme", "cmas": "CMADeme", "local": "LocalDeme", "lhs": "LHSDeme", "sobol": "SobolDeme", "xsea": "UserEADeme", "xde": "UserDEDeme"}
 INDEX_STABLE = {"de", "ded", "shade", "cma", "cmaw", "cmas", "local", "lhs", "sobol"}
 
 
 # ---------------------------------------------------------------- objectives (deterministic)
-def make_objective(spec):
+def make_objective(spec, level=0):
+    """deterministic objective of one level; levels of a non-shared problem may differ by a
+    constant shift (pyhms allows a different problem per level)"""
+    shift = 0.25 * level if (spec.get("level_shift") and not spec.get("shared_problem")) else 0.0
+    base = _make_objective(spec)
+    if shift == 0.0:
+        return base
+    sg = -1.0 if spec["maximize"] else 1.0
+    return lambda x: base(x) + sg * shift
+
+
+def _make_objective(spec):
     b = np.array(spec["bounds"], dtype=float)
     lo, hi = b[:, 0], b[:, 1]
     d = len(b)
@@ -47,6 +62,12 @@ def make_objective(spec):
 
         def f(x):
             return float(max(0.0, np.floor(four(x) * 2.0) / 2.0 - 0.5))
+
+    elif kind == "penalty":  # death penalty: the worst possible value on part of the domain
+
+        def f(x):
+            z = (np.asarray(x, dtype=float) - lo) / (hi - lo)
+            return float("inf") if z[0] > 0.85 else four(x)
 
     elif kind == "sphere":
 
@@ -99,11 +120,16 @@ class UserLSC:
 class UserGSC:
     """user-defined, monotone global stop condition"""
 
-    def __init__(self, evals, metaepochs):
+    def __init__(self, evals, metaepochs, look=False):
         self.evals = evals
         self.metaepochs = metaepochs
+        self.look = look
+        self.curve = []
 
     def __call__(self, tree):
+        if self.look:
+            # a user condition that inspects the tree (convergence curve): pure accessors only
+            self.curve.append((tree.best_individual.fitness, [d.best_individual.fitness for _, d in tree.all_demes if d.best_individual is not None]))
         return tree.n_evaluations >= self.evals or tree.metaepoch_count >= self.metaepochs
 
     def __str__(self):
@@ -122,7 +148,7 @@ def rand_spec(rng, **force):
         bounds = [[float(a), float(b)] for a, b in zip(lo, hi)]
     scale = float(np.mean([b[1] - b[0] for b in bounds]))
     maximize = bool(force.get("maximize", rng.random() < 0.35))
-    objective = force.get("objective", str(rng.choice(["four", "four", "plateau0", "sphere"])))
+    objective = force.get("objective", str(rng.choice(["four", "four", "plateau0", "sphere", "penalty"])))
     hib = bool(force.get("hibernation", rng.random() < 0.3))
 
     def lsc():
@@ -144,7 +170,7 @@ def rand_spec(rng, **force):
         pool = force.get("engines", {}).get(lvl, pool) if isinstance(force.get("engines"), dict) else pool
         k = str(rng.choice(pool))
         L = {"engine": k, "generations": int(rng.integers(1, 4)), "pop_size": int(rng.integers(5, 13)), "lsc": lsc(), "sample_std_dev": 0.1 * scale}
-        if k in ("sea", "seax", "ga", "adapt", "mwea"):
+        if k in ("sea", "seax", "ga", "adapt", "mwea", "xsea"):
             L["k_elites"] = int(rng.integers(1, 3))
             L["mutation_std"] = 0.15 * scale
             L["p_mutation"] = float(rng.choice([1.0, 1.0, 0.6]))
@@ -195,7 +221,7 @@ def rand_spec(rng, **force):
         {"kind": "AllStopped"},
         {"kind": "RootStopped"},
         {"kind": "SingularProblemPrecisionReached", "precision": float(rng.choice([0.05, 0.5]))},
-        {"kind": "User", "evals": int(rng.integers(60, 500)), "metaepochs": int(rng.integers(3, 9))},
+        {"kind": "User", "evals": int(rng.integers(60, 500)), "metaepochs": int(rng.integers(3, 9)), "look": bool(rng.random() < 0.6)},
         {"kind": "MetaepochLimit", "limit": int(rng.integers(3, 10))},
     ][gk]
     if "gsc" in force:
@@ -213,6 +239,7 @@ def rand_spec(rng, **force):
         "shared_problem": bool(rng.random() < 0.5),
         "cutoff": (int(rng.integers(30, 400)) if rng.random() < 0.15 else None),
         "stats_wrapper": bool(rng.random() < 0.2),
+        "level_shift": bool(rng.random() < 0.5),
         "max_steps": int(force.get("max_steps", 12)),
     }
     if gsc["kind"] == "SingularProblemPrecisionReached":
@@ -234,14 +261,13 @@ def build(spec, run):
     from pyhms.stop_conditions import usc as US
 
     bounds = np.array(spec["bounds"], dtype=float)
-    obj = make_objective(spec)
     nlev = len(spec["levels"])
     recs, probs, fps = [], [], []
     precision_problem = None
 
     def mk_problem(level):
         nonlocal precision_problem
-        r = Rec(obj, level, run)
+        r = Rec(make_objective(spec, level), level, run)
         fp = P.FunctionProblem(r, bounds=bounds, maximize=spec["maximize"])
         p = fp
         if spec.get("cutoff"):
@@ -280,11 +306,40 @@ def build(spec, run):
             return UserLSC(s["after"], s.get("numpy_bool", True))
         raise ValueError(k)
 
+    from pyhms.demes.de_deme import DEDeme
+    from pyhms.demes.ea_deme import EADeme
+
+    class UserEAConfig(C.EALevelConfig):
+        pass
+
+    class UserEADeme(EADeme):
+        pass
+
+    class UserDEConfig(C.BaseLevelConfig):
+        def __init__(self, pop_size, problem, lsc, generations, sample_std_dev):
+            super().__init__(problem, lsc)
+            self.pop_size = pop_size
+            self.generations = generations
+            self.sample_std_dev = sample_std_dev
+            self.dither = False
+            self.scaling = 0.8
+            self.crossover = 0.9
+
+    class UserDEDeme(DEDeme):
+        pass
+
+    custom = {UserEAConfig: UserEADeme, UserDEConfig: UserDEDeme}
     levels = []
     for lvl, L in enumerate(spec["levels"]):
         k = L["engine"]
         lsc = mk_lsc(L["lsc"])
         p = probs[lvl]
+        if k == "xsea":
+            levels.append(UserEAConfig(ea_class=S.SEA, generations=L["generations"], problem=p, pop_size=L["pop_size"], lsc=lsc, mutation_std=L["mutation_std"], sample_std_dev=L["sample_std_dev"], k_elites=L["k_elites"], p_mutation=L.get("p_mutation", 1.0)))
+            continue
+        if k == "xde":
+            levels.append(UserDEConfig(L["pop_size"], p, lsc, L["generations"], L["sample_std_dev"]))
+            continue
         if k in ("sea", "seax", "ga", "adapt", "mwea"):
             cls = {"sea": S.SEA, "seax": S.SEAWithCrossover, "ga": S.GAStyleSEA, "adapt": S.SEAWithAdaptiveMutation, "mwea": S.MWEA}[k]
             kw = dict(mutation_std=L["mutation_std"], sample_std_dev=L["sample_std_dev"], k_elites=L["k_elites"], p_mutation=L.get("p_mutation", 1.0))
@@ -352,10 +407,10 @@ def build(spec, run):
     elif gk == "SingularProblemPrecisionReached":
         gsc = GS.SingularProblemPrecisionReached(precision_problem)
     elif gk == "User":
-        gsc = UserGSC(g["evals"], g["metaepochs"])
+        gsc = UserGSC(g["evals"], g["metaepochs"], g.get("look", False))
     else:
         raise ValueError(gk)
-    return dict(levels=levels, gsc=gsc, sm=sm, recs=recs, probs=probs, fps=fps, bounds=bounds)
+    return dict(levels=levels, gsc=gsc, sm=sm, recs=recs, probs=probs, fps=fps, bounds=bounds, custom=custom)
 
 
 # ---------------------------------------------------------------- snapshots
@@ -564,7 +619,7 @@ class Run:
         T.init_from_config = init
         try:
             opts = {"random_seed": self.spec["seed"], "hibernation": self.spec["hibernation"]}
-            tree = T.DemeTree(TreeConfig(o["levels"], gsc, sm, options=opts))
+            tree = T.DemeTree(TreeConfig(o["levels"], gsc, sm, options=opts, config_class_to_deme_class=o["custom"]))
             self.tree = tree
             self.snaps.append(snap_tree(tree, self.order))
             if on_boundary:
